@@ -39,7 +39,7 @@ RULE = ("case = one generated program (instances with limits, runs with start in
 REQUIRED_REACH = ["body_entry", "entry_at_limit", "run_waited_for_slot", "under_limit_start_checked",
                   "under_limit_start_other_instance_saturated", "runs_executed_checked",
                   "release_by_failure", "release_by_abort", "release_by_cancel_run", "release_by_timeout", "abort_while_waiting_for_slot",
-                  "run_started_from_inside_a_step", "run_started_from_inside_a_step_of_the_same_instance"]
+                  "run_started_from_inside_a_step", "run_started_from_inside_a_step_of_the_same_instance", "runtime_lifecycle_call_with_runs_in_flight"]
 ASSUMPTIONS = ["virtual-time asyncio loop; BasicRuntime; async steps whose cleanup (`finally`) does not await",
                "'execute steps' is read as 'is inside a step body'; the stricter interval reading is only counted (informational)"]
 VCLOCK = True
@@ -85,7 +85,13 @@ def gen_case(rnd, deep=False):
             runs[k]["parent"] = parent
             if rnd.random() < 0.7:
                 runs[k]["inst"] = runs[parent]["inst"]
-    return {"insts": insts, "runs": runs}
+    life = []
+    if rnd.random() < 0.25:
+        # the runtime's lifecycle methods reach it while runs are in flight (another component sharing the runtime starts or stops,
+        # or a runtime-agnostic caller launches before every run): they must not disturb the limits
+        for _ in range(rnd.randint(1, 3)):
+            life.append({"at": rnd.choice([0.25, 0.5, 0.75, 1, 1.25, 2]), "op": rnd.choice(["launch", "launch", "destroy"])})
+    return {"insts": insts, "runs": runs, "life": life}
 
 
 def _classes():
@@ -255,6 +261,13 @@ def run_case(case, acc: Acc):
             wf._vf_mon = mon
             wf._vf_idx = idx
             wfs.append(wf)
+        async def lifecycle(op):
+            await asyncio.sleep(op["at"])
+            acc.hit("runtime_lifecycle_call_with_runs_in_flight" if any(mon.outstanding) else "runtime_lifecycle_call")
+            rt = wfs[0].runtime
+            await (rt.launch() if op["op"] == "launch" else rt.destroy())
+
+        life_tasks = [asyncio.ensure_future(lifecycle(op)) for op in case.get("life") or []]
         kids: list = []
         mon.spawner = lambda k: kids.append(asyncio.ensure_future(starter(k, wfs, nested=True)))
         await asyncio.gather(*[starter(k, wfs) for k in range(len(runs)) if runs[k].get("parent") is None])
@@ -262,6 +275,8 @@ def run_case(case, acc: Acc):
             await asyncio.gather(*list(kids))
         for t in kids:
             t.result()
+        for t in life_tasks:
+            await t
 
     r = vclock.run(main)
     never = [k for k in range(len(runs)) if started[k] and not cancel_req[k] and k not in mon.first_entry]
